@@ -5,7 +5,7 @@ from hypothesis import strategies as st
 
 from engines import simgen as g
 from engines.simprop import make_execute
-from vlib.core import bad, ok
+from vlib.core import bad, inconclusive, ok
 
 LEVEL = 'exploration'
 RULE = ('unit: op sequences (acquire-nonblocking, release, grow, shrink when '
@@ -83,6 +83,85 @@ def unit_small_scope():
                 yield {'n': n, 'ops': list(seq)}
 
 
+# ---- real threads racing on one semaphore -------------------------------------
+def threads_cases():
+    return st.fixed_dictionaries({
+        'n': st.integers(1, 4),
+        'threads': st.integers(2, 4),
+        'rounds': st.integers(300, 2000),
+        # how many slots are outstanding when the threads race to release
+        'outstanding': st.integers(1, 2),
+    })
+
+
+def execute_threads(case):
+    """Every round: take `outstanding` slots, then all threads release at the
+    same moment (more releases than slots outstanding - what the result handler
+    and the supervisor do for one job whose worker is replaced).  The surplus
+    must be dropped: value == bound afterwards, never above."""
+    import sys
+    import threading
+    from billiard.pool import LaxBoundedSemaphore
+    n, k = case['n'], case['threads']
+    out = min(case['outstanding'], n)
+    sem = LaxBoundedSemaphore(n)
+    old = sys.getswitchinterval()
+    sys.setswitchinterval(1e-6)
+    worst = [0]
+    try:
+        barrier = threading.Barrier(k)
+        stop = []
+
+        def releaser():
+            for _ in range(case['rounds']):
+                try:
+                    barrier.wait(timeout=30)
+                except threading.BrokenBarrierError:
+                    return
+                sem.release()
+                try:
+                    barrier.wait(timeout=30)
+                except threading.BrokenBarrierError:
+                    return
+
+        def driver():
+            for r in range(case['rounds']):
+                for _ in range(out):
+                    sem.acquire(False)
+                try:
+                    barrier.wait(timeout=30)     # everybody releases now
+                    sem.release()
+                    barrier.wait(timeout=30)
+                except threading.BrokenBarrierError:
+                    return
+                v = sem._value
+                if v > worst[0]:
+                    worst[0] = v
+                if v > sem._initial_value:
+                    stop.append(r)
+                    barrier.abort()
+                    return
+                while sem._value < sem._initial_value:   # normalise
+                    sem.release()
+        ths = [threading.Thread(target=releaser) for _ in range(k - 1)]
+        d = threading.Thread(target=driver)
+        for t in ths + [d]:
+            t.start()
+        for t in ths + [d]:
+            t.join(120)
+        if any(t.is_alive() for t in ths + [d]):
+            barrier.abort()
+            return inconclusive('threads did not finish')
+    finally:
+        sys.setswitchinterval(old)
+    if stop:
+        return bad('C10/threads-above-bound', 'after %d threads released '
+                   'concurrently with %d slot(s) outstanding the value is %d, '
+                   'bound %d (round %d)' % (k, out, sem._value,
+                                            sem._initial_value, stop[0]))
+    return ok(True, ['threads=%d' % k, 'outstanding=%d' % out])
+
+
 def sim_cases():
     cfg = g.config(maxtasks=True, limits=True, putlocks=True)
     ops = g.worker_ops + [
@@ -104,11 +183,15 @@ def _nontrivial(labels, sim):
 
 
 execute_sim = make_execute({'c10', 'c05'}, _nontrivial, prop='C10')
-PARTS = {'unit': execute_unit, 'unit-small': execute_unit, 'sim': execute_sim}
-EXPLORE = {'unit': (unit_cases(), execute_unit), 'sim': (sim_cases(), execute_sim)}
+PARTS = {'unit': execute_unit, 'unit-small': execute_unit, 'sim': execute_sim,
+         'threads': execute_threads}
+EXPLORE = {'unit': (unit_cases(), execute_unit), 'sim': (sim_cases(), execute_sim),
+           'threads': (threads_cases(), execute_threads)}
 
 
 def run(ctx):
     ctx.enumerate('unit-small', unit_small_scope(), execute_unit)
     ctx.explore('unit', unit_cases(), execute_unit, n=ctx.pick(1500, 40000))
     ctx.explore('sim', sim_cases(), execute_sim, n=ctx.pick(400, 20000))
+    ctx.explore('threads', threads_cases(), execute_threads, n=ctx.pick(25, 600),
+                shrink_budget=0)
